@@ -1,8 +1,9 @@
 // C19: history driver for utl::vector<E> with non-trivial / sum-type elements
 //   E = counted type (constructor/destructor/assignment registry), utl::maybe<int>, utl::either<int,double>
 // (the library itself instantiates utl::vector<utl::either<...>>, e.g. in index::matmul under NMTOOLS_DISABLE_STL).
-// The model is a std::vector of the *printed tokens* the cells must show (element values are opaque unique labels)
-// with per-cell definedness, exactly as for the arithmetic element types in c19_seq.cpp.
+// The model is a std::vector of the *printed tokens* the cells must show (element values are opaque unique labels;
+// cells created by vector(n) / a growing resize show T(): 0 / empty optional / first alternative) and, for the counted
+// type, a real std::vector<CountedM> whose number of live objects the library side has to match at every step.
 #include "c19_elem.hpp"
 
 namespace
